@@ -237,6 +237,43 @@ int visit(unsigned kind, unsigned n, const int* v, struct visits* o)
         rev_values(reverse(s), o);
         break;
     }
+    case 20: // enumerate(lvalue vector) iterated by hand with the POSTFIX increment
+    {
+        std::vector<int> c(v, v + n);
+        auto e = enumerate(c);
+        unsigned k = 0;
+        for (auto it = e.begin(); it != e.end(); it++)
+        {
+            auto pr = *it;
+            if (k < 5)
+            {
+                o->idx[k] = static_cast<unsigned>(pr.index());
+                o->val[k] = pr.value();
+            }
+            ++k;
+        }
+        o->n = k;
+        break;
+    }
+    case 21: // enumerate(lvalue vector) with *it++ in a while loop
+    {
+        std::vector<int> c(v, v + n);
+        auto e = enumerate(c);
+        auto it = e.begin();
+        unsigned k = 0;
+        while (it != e.end())
+        {
+            auto pr = *it++;
+            if (k < 5)
+            {
+                o->idx[k] = static_cast<unsigned>(pr.index());
+                o->val[k] = pr.value();
+            }
+            ++k;
+        }
+        o->n = k;
+        break;
+    }
     case 19: // reverse(temporary fixed_vector)
     {
         nitro::lang::fixed_vector<int> c(4);
